@@ -147,6 +147,9 @@ def gen_S(R):
     mode = 0 if R.random() < 0.3 else 1
     w = gen_words(R) if mode else [0, 0, 0, 0]
     cc = gen_cc(R, False) if mode else None
+    if mode and w[0] == 0 and w[3] == 0 and not (w[1] & 1) and R.random() < 0.5:
+        # already raw: whether tcsetattr on a pty then reports EINVAL must not depend on the control characters (they do change: VMIN, VTIME)
+        cc = list(cc or CC_DEFAULT); cc[6] = R.choice([0, 1, 2, 10, 255]); cc[5] = R.choice([0, 0, 5, 255])
     via = 'c' if R.random() < 0.6 else 'd'
     flags = gen_flags(R) if via == 'c' else b''
     baud, db, sb = gen_int(R, list(BAUDS)), gen_int(R, [7, 8]), gen_int(R, [1, 2])
@@ -283,11 +286,13 @@ def check_props(op, ans, V, st):
         return
     st['accepted %d,%d%c%d' % (baud if baud in (9600, 115200) else 0, db, chr(par).lower(), sb)] += 1
     if res == '0' and f.get('err') == 'tcsetattr' and f.get('asked', '-') != '-':
-        # the pseudo-terminal, not powerman: tcsetattr fails with EINVAL when it was asked for a change and, a pty keeping neither size nor
-        # parity, nothing changed.  Established from the answer itself: what was asked, as a pty keeps it, is the state the slave was in.
+        # the pseudo-terminal and glibc, not powerman: tcsetattr (Debian glibc 2.36) fails with EINVAL when none of the four flag words changed
+        # (control characters do not count) and the pty did not keep PARENB / CREAD / a non-zero CSIZE as asked.  Established from the
+        # answer itself: what was asked, as a pty keeps it, is the state the slave was in, and size / parity / CREAD were asked otherwise.
         a = [int(x, 16) for x in f['asked'].split(':')[:4]]; i0 = [int(x, 16) for x in f['init'].split(':')[:4]]
         kept = [a[0] & 0x7fffffff, a[1], (a[2] & ~(0x20000000 | CSIZE | PARENB)) | CS8 | T.CREAD, a[3]]
-        if kept == i0 and a != i0:
+        notkept = (a[2] & (PARENB | T.CREAD)) != (kept[2] & (PARENB | T.CREAD)) or ((a[2] & CSIZE) != 0 and (a[2] & CSIZE) != (kept[2] & CSIZE))
+        if kept == i0 and notkept:
             st['tcsetattr refused by the pty (size/parity not kept, nothing else to change)'] += 1; return
     if res != '1':
         V.append(dict(sig='C09 serial: a valid character format is refused', detail='%r: res=%s err=%s' % (p, res, f.get('err')), op=op[:300])); return
